@@ -131,6 +131,7 @@ type Exec struct {
 	wallMs        map[int]*Term
 	provided      map[string]Value
 	manualClock   *Term
+	randSeq       int
 	clockSteps    []int64 // VerifClockSteps: per-read advance choices (ms)
 	timerObjs     map[Ptr]*timerObj
 	opaqueN       int
@@ -990,6 +991,7 @@ func (x *Exec) resetPath() {
 	x.provided = map[string]Value{}
 	x.manualClock = nil
 	x.clockSteps = nil
+	x.randSeq = 0
 	x.timerObjs = map[Ptr]*timerObj{}
 	x.opaqueN = 0
 }
